@@ -1,0 +1,63 @@
+//go:build verif
+
+package config
+
+// Machine-checked contracts (comment-only; build tag verif). Checked by /verif/bin/hv.
+// The predicates below are written from the documentation (README, docs/, the shipped sample files),
+// not from the validator: the validator is proved equivalent to them.
+
+//@ pred portOK(p int) := 1 <= p && p <= 65535
+//@ pred docServer(c *Config) := portOK(c.Server.Port) && (c.Server.TLS.Enabled ==> c.Server.TLS.CertFile != "" && c.Server.TLS.KeyFile != "")
+//@ pred docTimeouts(c *Config) := c.Server.Timeouts.Read >= 0 && c.Server.Timeouts.Write >= 0 && c.Server.Timeouts.Idle >= 0 && c.Server.Timeouts.Handler >= 0
+//@      && c.Server.Timeouts.Shutdown >= 0 && c.Server.Timeouts.BackendDial >= 0 && c.Server.Timeouts.BackendRead >= 0 && c.Server.Timeouts.BackendIdle >= 0
+//@ pred docStrategy(s string) := s == "" || s == "round_robin" || s == "least_connections" || s == "weighted_round_robin" || s == "ip_hash" || s == "ip_hash_consistent"
+//@ pred docPool(c *Config) := c.LoadBalancer.WebSocketPool.Enabled ==> c.LoadBalancer.WebSocketPool.MaxIdle >= 0 && c.LoadBalancer.WebSocketPool.MaxActive >= 0
+//@      && (c.LoadBalancer.WebSocketPool.MaxActive > 0 ==> c.LoadBalancer.WebSocketPool.MaxIdle <= c.LoadBalancer.WebSocketPool.MaxActive)
+//@      && c.LoadBalancer.WebSocketPool.IdleTimeoutSeconds >= 0
+//@ pred docHealth(c *Config) := (c.HealthChecks.Active.Enabled ==> c.HealthChecks.Active.Interval > 0 && c.HealthChecks.Active.Timeout > 0
+//@         && c.HealthChecks.Active.Timeout < c.HealthChecks.Active.Interval && c.HealthChecks.Active.Path != "")
+//@      && (c.HealthChecks.Passive.Enabled ==> c.HealthChecks.Passive.UnhealthyThreshold > 0 && c.HealthChecks.Passive.UnhealthyTimeout > 0)
+//@ pred docRateLimit(c *Config) := c.RateLimit.Enabled ==> c.RateLimit.MaxTokens > 0 && c.RateLimit.RefillRate > 0
+// circuit breaker: positive thresholds/durations; max_requests is a count (0 = default 1) and must allow
+// success_threshold successes, otherwise the breaker can never close again (C08).
+//@ pred effMaxRequests(c *Config) int := c.CircuitBreaker.MaxRequests == 0 ? 1 : c.CircuitBreaker.MaxRequests
+//@ pred docBreaker(c *Config) := c.CircuitBreaker.Enabled ==> c.CircuitBreaker.FailureThreshold > 0 && c.CircuitBreaker.SuccessThreshold > 0
+//@      && c.CircuitBreaker.TimeoutSeconds > 0 && c.CircuitBreaker.IntervalSeconds > 0 && c.CircuitBreaker.MaxRequests >= 0
+//@ pred docMetrics(c *Config) := c.Metrics.Enabled ==> portOK(c.Metrics.Port) && c.Metrics.Path != ""
+//@ pred docAdmin(c *Config) := c.AdminAPI.Enabled ==> portOK(c.AdminAPI.Port)
+// logging: the documentation lists levels debug/info/warn/error and formats text/json; the code additionally
+// tolerates "fatal" and "console" (neither required nor forbidden by the documentation).
+//@ pred docLevel(s string) := s == "" || s == "debug" || s == "info" || s == "warn" || s == "error"
+//@ pred docFormat(s string) := s == "" || s == "text" || s == "json"
+//@ pred tolLevel(s string) := docLevel(s) || s == "fatal"
+//@ pred tolFormat(s string) := docFormat(s) || s == "console"
+
+//@ func (*Config).validateServer
+//@   props C18
+//@   ensures exact: result == nil <==> docServer(c)
+//@ func (*Config).validateTimeouts
+//@   props C18
+//@   ensures exact: result == nil <==> docTimeouts(c)
+//@ func (*Config).validateLoadBalancer
+//@   props C18
+//@   ensures exact: result == nil <==> docStrategy(c.LoadBalancer.Strategy) && docPool(c)
+//@ func (*Config).validateHealthChecks
+//@   props C18
+//@   ensures exact: result == nil <==> docHealth(c)
+//@ func (*Config).validateRateLimit
+//@   props C18 C09
+//@   ensures exact: result == nil <==> docRateLimit(c)
+//@ func (*Config).validateCircuitBreaker
+//@   props C18 C08
+//@   ensures exact: result == nil <==> docBreaker(c)
+//@   ensures accepted_breaker_can_close@C08: result == nil && c.CircuitBreaker.Enabled ==> effMaxRequests(c) >= c.CircuitBreaker.SuccessThreshold
+//@ func (*Config).validateMetrics
+//@   props C18
+//@   ensures exact: result == nil <==> docMetrics(c)
+//@ func (*Config).validateAdminAPI
+//@   props C18
+//@   ensures exact: result == nil <==> docAdmin(c)
+//@ func (*Config).validateLogging
+//@   props C18
+//@   ensures documented_values_accepted: docLevel(c.Logging.Level) && docFormat(c.Logging.Format) ==> result == nil
+//@   ensures unknown_values_rejected: result == nil ==> tolLevel(c.Logging.Level) && tolFormat(c.Logging.Format)
